@@ -38,6 +38,18 @@ def download_scenario(rng, plens, seed, outgoing):
         if r < 0.18:
             ev.append(ev_msg(KEEPALIVE))
             continue
+        if r < 0.28 and steps > 1:
+            # the peer chokes us in the middle of the piece (dropping our pending requests) and unchokes again; the
+            # manager assigns the same piece again or another one: the requests must tile the new assignment afresh
+            ev.append(ev_msg(CHOKE))
+            if rng.random() < 0.3:
+                ev.append(ev_msg(sim.answer(0)))       # a block still in flight when the choke was sent
+                if sim.accepted(0):
+                    break
+            j = sim.idx if (rng.random() < 0.6 or not order) else order.pop()
+            ev.append(ev_msg(UNCHOKE, unch=("%s:%d:%d" % (rng.choice(["REQ", "INTREQ"]), j, plens[j]))))
+            sim.assign(j)
+            continue
         which = rng.randrange(len(sim.requested)) if rng.random() < 0.5 else 0
         corrupt = rng.random() < 0.04
         m = sim.answer(which, corrupt)
